@@ -288,10 +288,21 @@ func checkHistory(hist history) (h.Info, error) {
 				bufs[j] = make(trinary.Trits, 2*ref.Rate)
 			}
 			if o.Kind == "bad-absorb" {
-				if in.model[0].Squeezing {
-					// argument validation precedes the direction check; still a rejected call
-				}
-				err = in.c.Absorb(bufs, count)
+				// on a squeezing instance the call is rejected either by the argument validation (an
+				// error) or by the documented "absorb after squeeze" panic; the statement fixes no order
+				// between the two, only that the state is untouched
+				func() {
+					defer func() {
+						if r := recover(); r != nil {
+							if in.model[0].Squeezing {
+								err = fmt.Errorf("panic: %v", r)
+								return
+							}
+							panic(r)
+						}
+					}()
+					err = in.c.Absorb(bufs, count)
+				}()
 			} else {
 				err = in.c.Squeeze(bufs, count)
 			}
@@ -408,10 +419,8 @@ func genHistory(t *rapid.T) history {
 			if len(st) < 4 {
 				newInst()
 			}
-		case 5:
-			if !st[i].squeezing { // a rejected Absorb on a squeezing sponge would hit the documented panic first for valid sizes
-				ops = append(ops, op{Kind: "bad-absorb", Inst: i, Bad: h.OneOf(t, "bad", "size0", "size65", "length"), Blocks: rapid.IntRange(0, 200).Draw(t, "extra")})
-			}
+		case 5: // also on a squeezing instance: rejected (by error or by the documented panic), state untouched
+			ops = append(ops, op{Kind: "bad-absorb", Inst: i, Bad: h.OneOf(t, "bad", "size0", "size65", "length"), Blocks: rapid.IntRange(0, 200).Draw(t, "extra")})
 		default:
 			ops = append(ops, op{Kind: "bad-squeeze", Inst: i, Bad: h.OneOf(t, "bad", "size0", "size65", "length"), Blocks: rapid.IntRange(0, 200).Draw(t, "extra")})
 		}
